@@ -149,9 +149,11 @@ def show_obj(o, priors):
         fr = Fraction(o)
         if isinstance(o, float):
             # Fraction ** prior goes through float(): snap back to the simple rational it came from
-            near = fr.limit_denominator(1000)
-            if abs(near - fr) <= 1e-15 * max(1, abs(near)):
-                fr = near
+            for den in (1000, 10 ** 13):
+                near = fr.limit_denominator(den)
+                if abs(near - fr) <= 1e-15 * max(1, abs(near)):
+                    fr = near
+                    break
         return "N" + q2s(fr)
     return "?%r" % (o,)
 
